@@ -5,6 +5,7 @@ ignores SIGINT) at every command position, in before/after hooks and in the cond
 import json
 import vlib
 import tasklib
+import clilib
 
 TRUSTED = [
     "model Model/Timeout.v: a job under timeout T ends as a non-exit-status error iff it would run longer than T; every job (commands, before, after, condition) carries the task's timeout; a fresh timer per job",
@@ -90,6 +91,84 @@ def to_engine(ctx, c):
     return {"id": c["id"], "dir": ctx.workdir, "tasks": [t], "plan": [{"op": "run", "tasks": [0]}], "format": "raw"}
 
 
+def cli_cases(ctx):
+    """the timeout as WRITTEN IN A CONFIGURATION FILE (string forms and nanoseconds), for a task run directly, as a stage, as a stage with
+    per-stage overrides, inside a nested pipeline, and as the second of two targets"""
+    rng = vlib.rng_for(ctx.seed, "C13cli")
+    early = {"dur": "early", "exit": 0}
+    cases = []
+    forms = [("300ms", 300), ("0.3s", 300), (300000000, 300), ("1s", 1000), ("0h0m0.5s", 500)]
+    modes = ["direct", "stage", "stage-overrides", "nested", "second-target", "run-task"]
+    for mode in modes:
+        for shape in (("sleep", "busy") if ctx.tier == "thorough" else (rng.choice(["sleep", "busy"]),)):
+            form, ms = rng.choice(forms)
+            allow = rng.random() < 0.5
+            pos = rng.randrange(2)
+            jobs = [[({"dur": shape, "exit": 0} if k == pos else dict(early)) for k in range(2)]]
+            cases.append({"kind": "cli-overrun", "mode": mode, "form": form, "timeout_ms": ms, "cond": None, "before": [dict(early)], "jobs": jobs, "after": [dict(early)], "allow": allow})
+        form, ms = rng.choice(forms)
+        cases.append({"kind": "cli-within", "mode": mode, "form": form, "timeout_ms": ms, "cond": None, "before": [], "jobs": [[dict(early) for _ in range(4)]], "after": [dict(early)],
+                      "allow": False})
+    for form, ms in forms:
+        cases.append({"kind": "cli-forms", "mode": "direct", "form": form, "timeout_ms": ms, "cond": None, "before": [], "jobs": [[dict(early), {"dur": "sleep", "exit": 0}]], "after": [],
+                      "allow": False})
+    for mode in ("direct", "stage"):
+        cases.append({"kind": "cli-hook-overrun", "mode": mode, "form": "250ms", "timeout_ms": 250, "cond": None, "before": [{"dur": "sleep", "exit": 0}], "jobs": [[dict(early)]], "after": [dict(early)],
+                      "allow": False})
+        cases.append({"kind": "cli-hook-overrun", "mode": mode, "form": "250ms", "timeout_ms": 250, "cond": None, "before": [], "jobs": [[dict(early)]], "after": [{"dur": "sleep", "exit": 0}, dict(early)],
+                      "allow": False})
+    return cases
+
+
+def cli_job(c, jid):
+    nc = len(c["jobs"][0])
+    fix = lambda s: s.replace('"$TRACE"', '"$PROJ/out"')
+    t = {"command": [fix(cmd_text("c0.%d" % k, c["jobs"][0][k])) for k in range(nc)], "timeout": c["form"], "allow_failure": c["allow"],
+         "before": [fix(cmd_text("b%d" % k, b)) for k, b in enumerate(c["before"])], "after": [fix(cmd_text("a%d" % k, a)) for k, a in enumerate(c["after"])]}
+    doc = {"tasks": {"t": t, "first": {"command": ["true"]}},
+           "pipelines": {"p": [{"task": "t"}], "po": [{"task": "t", "env": {"SOME": "x"}, "variables": {"v": "1"}}], "outer": [{"pipeline": "p", "name": "inner"}]}}
+    argv = {"direct": ["t"], "stage": ["p"], "stage-overrides": ["po"], "nested": ["outer"], "second-target": ["first", "t"], "run-task": ["run", "task", "t"]}[c["mode"]]
+    return {"id": jid, "files": {"cfg.json": clilib.jcfg(doc)}, "argv": ["-c", "cfg.json", "--raw"] + argv, "keep": ["out"], "timeout": 40}
+
+
+def judge_cli(ctx, cases, res):
+    jobs = [cli_job(c, k) for k, c in enumerate(cases)]
+    out = clilib.run_cli(ctx.workdir, jobs, timeout=40, workers=8)
+    items, info = [], {}
+    for k, c in enumerate(cases):
+        r = out[k]
+        info[k] = {"rc": r.get("rc"), "wall_ms": r.get("wall_ms"), "bound_ms": bound_ms(c) + 1500, "trace": (r["files"].get("out") or "").split(), "stderr": (r.get("err") or "")[-400:]}
+        if r["timeout"] or clilib.crashed(r):
+            info[k]["hung"] = True
+            continue
+        try:
+            tr = vlib.clist(info[k]["trace"], tasklib.parse_tok)
+        except ValueError as e:
+            info[k]["unparsable"] = str(e)
+            continue
+        items.append("(%d%%N, (%s, (%s, %s, %s)))" % (k, coq_tt(c), tr, vlib.cbool(r["rc"] != 0), vlib.cbool(r["wall_ms"] <= bound_ms(c) + 1500)))
+    bad = {"BAD_TRACE": set(), "BAD_STATUS": set(), "BAD_TIME": set()}
+    for rc, o, start, cnt in vlib.coq_eval_sharded(ctx.workdir, "cases_c13cli", HEADER, items, lambda: FOOTER_CLI, shard=500):
+        if rc != 0:
+            res.mismatches.append({"what": "cases.v did not evaluate", "detail": o[-1500:]})
+            continue
+        pr = vlib.coq_printed(o)
+        for key in bad:
+            if key not in pr:
+                res.mismatches.append({"what": "cases.v output lacks " + key, "detail": o[-800:]})
+            bad[key].update(vlib.nums(pr.get(key, "")))
+        res.traces_validated += cnt
+    return bad, info
+
+
+FOOTER_CLI = """
+Definition BAD_TRACE := Eval vm_compute in bad_ids (fun c => c13_cli_trace_ok (fst c) (fst (fst (snd c)))) cases.
+Definition BAD_STATUS := Eval vm_compute in bad_ids (fun c => c13_cli_status_ok (fst c) (snd (fst (snd c)))) cases.
+Definition BAD_TIME := Eval vm_compute in bad_ids (fun c => snd (snd c)) cases.
+Print BAD_TRACE. Print BAD_STATUS. Print BAD_TIME.
+"""
+
+
 def n_overruns_reached(c):
     """how many overrunning commands can be reached in one run (after hooks all run; otherwise the first one ends the task)"""
     n = 0
@@ -168,10 +247,44 @@ def run(ctx):
     res.rule = ("timeouts 100/250/500/1000 ms; an overrunning command (external `sleep 30`, shell busy loop, `sh -c` child ignoring SIGINT) at every "
                 "position of 1..3 commands x allow_failure, in the 2nd of 3 variations, in before / after hooks and in the condition, after an "
                 "earlier failing command; tasks where nothing overruns but the total exceeds the timeout.  One child process per case, real time.  "
+                "Through the binary: the timeout written in the configuration file as 300ms / 0.3s / nanoseconds / 1s / 0h0m0.5s, task run directly, as a stage, "
+                "as a stage with overrides, in a nested pipeline, as second target, via `run task`.  "
                 "distinct = distinct task; non-trivial = at least one command overruns or the sum of durations exceeds the timeout.")
-    cases = ctx.replay_cases if ctx.replay_cases else gen_cases(ctx)
+    allc = ctx.replay_cases if ctx.replay_cases else gen_cases(ctx) + cli_cases(ctx)
+    cases = [c for c in allc if not c["kind"].startswith("cli-")]
+    clic = [c for c in allc if c["kind"].startswith("cli-")]
     for k, c in enumerate(cases):
         c["id"] = k
+    # --- through the binary: the timeout as written in a configuration file
+    if clic:
+        cbad, cinfo = judge_cli(ctx, clic, res)
+        sus = sorted(set().union(*cbad.values()) | {k for k, i in cinfo.items() if "hung" in i})
+        if sus and len(sus) <= 6:
+            again = [clic[k] for k in sus]
+            cbad2, cinfo2 = judge_cli(ctx, again, res)
+            back = {i: k for i, k in enumerate(sus)}
+            for key in cbad:
+                cbad[key] = (cbad[key] - set(sus)) | {back[i] for i in cbad2[key]}
+            for i, k in back.items():
+                cinfo[k] = cinfo2[i]
+        cwhat = {"BAD_TIME": "taskctl did not end within timeout + kill grace + slack although the configuration file gives the task a timeout",
+                 "BAD_TRACE": "with the timeout written in the configuration file, the commands that were started differ from: everything up to the overrunning command, nothing after it (after hooks: all)",
+                 "BAD_STATUS": "with the timeout written in the configuration file, taskctl's exit status does not say what the timeout rules say (failure iff a command overran)"}
+        for k, c in enumerate(clic):
+            res.evaluations += 1
+            res.count(c["kind"] + ":" + c["mode"])
+            res.nontrivial_keys.add(json.dumps(c, sort_keys=True))
+            i = cinfo.get(k, {})
+            if "hung" in i:
+                res.violations.append({"class": None, "what": "taskctl crashed or did not end although the configuration file gives the task a timeout", "case": c, "observed": i})
+            elif "unparsable" in i:
+                res.mismatches.append({"what": "unparsable trace", "case": c, "observed": i})
+        for key in ("BAD_TIME", "BAD_TRACE", "BAD_STATUS"):
+            for k in sorted(cbad[key]):
+                res.violations.append({"class": None, "what": cwhat[key], "case": clic[k], "observed": cinfo.get(k)})
+    if not cases:
+        res.samples = clic[:2]
+        return res
     bad, info = judge(ctx, cases, res, "", workers=8)
     suspects = sorted(set().union(*bad.values()) | {cid for cid, i in info.items() if "crash" in i or "hung" in i or "unparsable" in i})
     if suspects:
